@@ -12,6 +12,7 @@ pub fn main(o: &Opts) -> i32 {
     let threads = o.usize("threads", 4);
     let rounds = o.usize("rounds", 300);
     let mut out = Out::create(&o.str("out", "trace.ndjson"));
+    if o.usize("free", 0) > 0 { return free(o, out); }
     let mgr = Arc::new(TransactionManager::new());
     for r in 0..rounds {
         let bar = Arc::new(Barrier::new(threads));
@@ -37,5 +38,51 @@ pub fn main(o: &Opts) -> i32 {
     let n = out.n;
     out.finish();
     println!("{{\"rounds\": {n}}}");
+    0
+}
+
+/// Free-running mode: no barrier, every thread loops begin / write the shared entity / commit-or-abort / gc, so that
+/// begin races with another thread's commit + gc (the window between reading the snapshot epoch and registering in
+/// the table has no yield point).  All transactions write entity 1; the committed ones are sorted by commit epoch and
+/// emitted as overlapping windows (each window starts with the last transaction of the previous one), which
+/// FcwHistory.tla judges exactly as it judges a round.
+fn free(o: &Opts, mut out: Out) -> i32 {
+    let threads = o.usize("threads", 3);
+    let iters = o.usize("free", 10000);
+    let win = o.usize("window", 16);
+    let mgr = Arc::new(TransactionManager::new());
+    let bar = Arc::new(Barrier::new(threads));
+    let hs: Vec<_> = (0..threads)
+        .map(|_| {
+            let m = Arc::clone(&mgr);
+            let b = Arc::clone(&bar);
+            std::thread::spawn(move || {
+                let mut v = Vec::with_capacity(iters);
+                b.wait();
+                for _ in 0..iters {
+                    let t = m.begin();
+                    let s = m.start_epoch(t).map(|e| e.as_u64()).unwrap_or(0);
+                    m.record_write(t, EntityId::Node(NodeId::new(1))).unwrap();
+                    let c = match m.commit(t) { Ok(e) => e.as_u64(), Err(_) => { let _ = m.abort(t); 0 } };
+                    m.gc();
+                    v.push((s, c));
+                }
+                v
+            })
+        })
+        .collect();
+    let mut all: Vec<(u64, u64)> = hs.into_iter().flat_map(|h| h.join().unwrap()).collect();
+    let refused = all.iter().filter(|x| x.1 == 0).count();
+    all.retain(|x| x.1 > 0);
+    all.sort_by_key(|x| x.1);
+    let mut i = 0;
+    while i + 1 < all.len() {
+        let j = (i + win).min(all.len());
+        out.emit(&json!({"a": "round", "txs": all[i..j].iter().map(|(s, c)| json!({"s": s, "c": c, "w": [1]})).collect::<Vec<_>>()}));
+        i = j - 1;
+    }
+    let n = out.n;
+    out.finish();
+    println!("{{\"rounds\": {n}, \"committed\": {}, \"refused\": {refused}}}", all.len());
     0
 }
